@@ -211,7 +211,14 @@ def run(P, rep, tier):
             if path in bad:
                 rep.ob('C16.RAWNULL', key, False, f.loc(bad[path][0]), 'raw allocation stored in %s at %s: %s' % (path, f.loc(ev0), bad[path][1]))
             else:
-                rep.ob('C16.RAWNULL', key, True, f.loc(ev0), 'raw allocation result %s is NULL-tested before use' % path)
+                # never dereferenced here is not enough when the pointer outlives the function: a result stored in a member or
+                # handed out must also be *reported* - some branch of the function tests it (or a local copy of it)
+                escapes = ev0['k'] == 'st' and strip(ev0['e'][2])[0] != 'v'
+                tested = any(f.blocks[b].get('fullcond') is not None and path in pstr(strip(f.blocks[b]['fullcond'])) for b in f.reach())
+                if escapes and not tested:
+                    rep.ob('C16.RAWNULL', key, False, f.loc(ev0), 'raw allocation stored in %s is never tested in %s: when it fails the function reports success and the failure surfaces later (or never) instead of as an error code of this call' % (path, f.name))
+                else:
+                    rep.ob('C16.RAWNULL', key, True, f.loc(ev0), 'raw allocation result %s is NULL-tested before use' % path)
     rep.floor('C16.RAWNULL', 6)
 
     # ---------------- DCTORFIRST / DCTORSAFE
